@@ -149,15 +149,20 @@ func runC32(c *Case, e *Env) Outcome {
 	var sr SimResult
 	switch w.Kind {
 	case "program":
+		// The knob is written while no task of the case exists: a `bg` job can outlive the root task, and a
+		// restore at the end of the root task raced with such a job reading the limit in NewStdin (the
+		// harness's own write, reported by the detector in the thorough tier). The forks' capture streams
+		// are unlimited whatever the knob says (lang/fork.go), so it does not matter that they are created
+		// after it is set.
+		save := streams.DefaultMaxBufferSize
+		if w.Limit > 0 {
+			streams.DefaultMaxBufferSize = w.Limit
+		}
+		defer func() { streams.DefaultMaxBufferSize = save }()
 		sr = e.Bubble(c.Sched, func() {
 			forks := make([]*lang.Fork, len(w.Progs))
 			for i := range w.Progs {
 				forks[i] = newFork(fmt.Sprintf("murex/mxsim-race%d", i))
-			}
-			if w.Limit > 0 {
-				save := streams.DefaultMaxBufferSize
-				streams.DefaultMaxBufferSize = w.Limit
-				defer func() { streams.DefaultMaxBufferSize = save }()
 			}
 			done := make(chan struct{}, len(w.Progs))
 			for i := range w.Progs {
